@@ -1,6 +1,6 @@
 (* input, one process per line:
      <pid> <templ> F <n> {<name> <ty>}n M <k> {<sym> <bexp>}k Q <q> {<name>}q
-   ty ::= R bexp bexp | K bexp bexp | C | B | U | O | S <owner> bexp      bexp ::= L <z> | V <sym> | ( <op> <k> bexp*k   (prefix)
+   ty ::= R bexp bexp | K bexp bexp | C | B | U | O | S <owner> bexp | X <shape> <k> bexp*k      bexp ::= L <z> | V <sym> | ( <op> <k> bexp*k   (prefix)
    output: one line, the results of the q queries separated by " ; " : "-" or "<index> <ty>" *)
 open Model_dot
 let rec nat_of_int n = if n <= 0 then O else S (nat_of_int (n - 1))
@@ -20,6 +20,7 @@ let rec bexp () = match next () with
 let ty () = match next () with
   | "R" -> let a = bexp () in let b = bexp () in TRange (a, b) | "K" -> let a = bexp () in let b = bexp () in TConstRange (a, b) | "C" -> TClock | "B" -> TBool | "U" -> TFun | "O" -> TLoc
   | "S" -> let o = num () in TScalar (nat_of_int o, bexp ())
+  | "X" -> let sh = num () in let k = num () in let rec bs n = if n <= 0 then [] else let a = bexp () in a :: bs (n - 1) in TShape (nat_of_int sh, bs k)
   | t -> failwith ("ty " ^ t)
 let rec show_b = function
   | BLit z -> "L " ^ string_of_int (int_of_z z) | BVar s -> "V " ^ string_of_int (int_of_nat s)
@@ -27,6 +28,7 @@ let rec show_b = function
 let show_t = function
   | TRange (a, b) -> "R " ^ show_b a ^ " " ^ show_b b | TConstRange (a, b) -> "K " ^ show_b a ^ " " ^ show_b b | TClock -> "C" | TBool -> "B" | TFun -> "U" | TLoc -> "O"
   | TScalar (o, b) -> "S " ^ string_of_int (int_of_nat o) ^ " " ^ show_b b
+  | TShape (sh, bs) -> "X " ^ string_of_int (int_of_nat sh) ^ " " ^ string_of_int (List.length bs) ^ Stdlib.String.concat "" (List.map (fun a -> " " ^ show_b a) bs)
 let rec times n f = if n <= 0 then [] else let x = f () in x :: times (n - 1) f
 let expect s = let t = next () in if t <> s then failwith ("expected " ^ s ^ " got " ^ t)
 let () =
